@@ -82,6 +82,26 @@ inline std::string genMessage(Src &s, const World &w, const MsgOpt &opt = MsgOpt
                 items.push_back(genDatum(s, kind, dopt).text);
             }
         }
+        if (s.prob(1, 16)) {
+            // long decimal literal (up to ~75 significant characters) with the white space 488.2 allows around the exponent:
+            // exercises every fixed-size conversion buffer at and around its limit
+            // total number of significant (non-blank) characters: biased to the neighbourhood of power-of-two buffer sizes
+            static const int around[] = {31, 32, 33, 63, 64, 65, 64, 127, 128, 129};
+            size_t T = s.prob(1, 2) ? (size_t) around[s.range(0, 9)] : s.range(20, 140);
+            std::string tail = std::string(s.coin() ? "E" : "e") + "|" + (s.coin() ? "-" : "") + std::to_string(s.range(0, 99));   // '|' marks where blanks go
+            std::string suffix = s.prob(1, 4) ? "V" : "";
+            std::string num = s.coin() ? "-" : "";
+            size_t fixed = num.size() + tail.size() - 1 + suffix.size();
+            size_t nd = T > fixed + 1 ? T - fixed : 1;
+            bool dot = s.prob(1, 3) && nd > 2;
+            if (dot) nd--;
+            size_t dotAt = dot ? s.range(1, nd - 1) : nd + 1;
+            for (size_t i = 0; i < nd; i++) { if (i == dotAt) num += '.'; num += (char) ('0' + s.range(i ? 0 : 1, 9)); }
+            std::string w1 = wsp(s, 2), w2 = wsp(s, 2);
+            if (w1.empty() && w2.empty()) w1 = " ";
+            num += w1 + tail.substr(0, 1) + w2 + tail.substr(2) + (suffix.empty() ? "" : " " + suffix);
+            if (items.empty()) items.push_back(num); else items[s.range(0, items.size() - 1)] = num;
+        }
         if (s.prob(1, 12)) items.push_back(genDatum(s, (int) s.range(0, D_KINDS - 1), dopt).text);     // surplus
         if (s.prob(1, 20) && !items.empty()) items.pop_back();                                          // missing
         if (s.prob(1, 25)) items.push_back(genMalformed(s));
